@@ -51,11 +51,12 @@
 static inline int
 sdp_msg_type_get(uint8_t *sdp_msg, size_t sdp_msg_size, const uint8_t type,
     size_t *line, uint8_t **val_ret, size_t *val_ret_size) {
-	uint8_t *val, *val_end;
+	uint8_t *val, *val_end, *msg_end;
 	size_t i, start_line;
 
 	if (NULL == sdp_msg || 0 == sdp_msg_size)
 		return (EINVAL);
+	msg_end = (sdp_msg + sdp_msg_size);
 
 	/* Skeep first lines. */
 	val = (sdp_msg - 2);
@@ -66,7 +67,8 @@ sdp_msg_type_get(uint8_t *sdp_msg, size_t sdp_msg_size, const uint8_t type,
 
 	for (; NULL != val; i ++) {
 		val += 2;
-		if (type == (*val) && '=' == (*(val + 1))) {
+		if ((val + 1) < msg_end &&
+		    type == (*val) && '=' == (*(val + 1))) {
 			/* Found! */
 			val += 2;
 			if (NULL != line) {
